@@ -257,7 +257,9 @@ Definition commit_chan (nominal : Z) (d : db) (wc : wchan) (end_ : Z) : res (db 
   | Some c =>
       if wc_pbytes wc =? 0 then Ok (d, wc) else
       let switching := real_cap nominal <=? wc_fsize wc in
-      if negb (wc_prev wc =? 0) && negb switching && (end_ <? wc_prev wc) then Err EValidation else
+      (* presetEnd is never set by cesium writers, so the previous-commit check applies to
+         switching commits too *)
+      if negb (wc_prev wc =? 0) && (end_ <? wc_prev wc) then Err EValidation else
       if negb (wc_start wc <? end_) then Err EValidation else
       let p := Dom (TR (wc_start wc) end_) (wc_pend wc) in
       do P' <- (if wc_prev wc =? 0 then idx_insert (c_doms c) p else idx_update (c_doms c) p);
